@@ -35,6 +35,20 @@ int main(void)
         return 2;
     }
 
+    /* honest control: ordinary CN, no SAN */
+    subj.n = 0;
+    rdn(&subj, OID_O, sizeof(OID_O), 0x0C, "Good Ltd", 8);
+    rdn(&subj, OID_CN, sizeof(OID_CN), 0x13, "good.example", 12);
+    mkcert(&subj, NULL, &cert);
+    printf("-- honest control: CN PrintableString \"good.example\"\n");
+    if (validate(&cert, "good.example", NAME_TYPE_ANY, &ff, 1) != 0 ||
+        !handshake(&cert, "good.example", 0, 1) ||
+        !handshake(&cert, "good.example", 1, 1))
+    {
+        printf("honest control failed\n");
+        return 2;
+    }
+
     subj.n = 0;
     rdn(&subj, OID_O, sizeof(OID_O), 0x0C, "Attacker Ltd", 12);
     rdn(&subj, OID_CN, sizeof(OID_CN), 0x03, cn, sizeof(cn) - 1);
@@ -46,7 +60,7 @@ int main(void)
     hsCtl = handshake(&cert, "other.com", 0, 1);
     hs12 = handshake(&cert, "victim.com", 0, 1);
     hs13 = handshake(&cert, "victim.com", 1, 1);
-    if (rcOther >= 0 || hsCtl)
+    if (rcOther == 0 || hsCtl)
     {
         printf("control failed: name check is not active?\n");
         return 2;
@@ -61,6 +75,7 @@ int main(void)
             hs13 ? "completed" : "failed");
         return 1;
     }
-    printf("no violation observed\n");
+    printf("OK: BIT STRING commonName with an embedded NUL is not accepted "
+        "as \"victim.com\" (rc=%d); ordinary CN still authenticates\n", rc);
     return 0;
 }
